@@ -11,7 +11,7 @@ AlphaSmall == {46, 95, 97, 32, 47, 126}
 Alpha == IF AlphaSet = "full" THEN AlphaFull ELSE AlphaSmall
 
 VARIABLES x
-Init == x \in SeqsUpTo(Alpha, MaxLen)
+Init == \E k \in 0..MaxLen : x \in [1..k -> Alpha]
 Next == FALSE /\ UNCHANGED x
 
 Out == SanV(Variant, x)
